@@ -2,7 +2,6 @@
 fork-based parallel map, subprocess helpers."""
 import hashlib
 import json
-import multiprocessing
 import os
 import re
 import subprocess
@@ -20,6 +19,12 @@ FINDINGS_FILE = VERIF / "known_findings.json"
 EVIDENCE_SCHEMA = VERIF / "schemas" / "EVIDENCE.schema.json"
 PY = "/venv/bin/python"
 NPROC = int(os.environ.get("VERIF_NPROC", "16"))
+# CPUs available to the top-level check process; pmap pins each worker to one of them
+# (thread-to-thread baton passes of the ScheduleExplorer are ~8x cheaper on one CPU of
+# this VM than across CPUs), and fresh subprocesses get the full set back.
+if "VERIF_CPUS" not in os.environ:
+    os.environ["VERIF_CPUS"] = ",".join(map(str, sorted(os.sched_getaffinity(0))))
+ALL_CPUS = [int(c) for c in os.environ["VERIF_CPUS"].split(",") if c != ""]
 
 
 class HarnessError(Exception):
@@ -60,39 +65,95 @@ def digest(obj) -> str:
 
 # ------------------------------------------------------------------ parallel map
 
-_PMAP_FN = None
-
-
-def _pmap_call(arg):
-    try:
-        return ("ok", _PMAP_FN(arg))
-    except BaseException:  # noqa
-        return ("err", traceback.format_exc())
-
-
 def pmap(fn, items, procs=None, chunksize=1):
-    """Fork-based map: the children inherit the already-imported library and World."""
-    global _PMAP_FN
+    """Fork-based map: the children inherit the already-imported library and World.
+
+    Hand-rolled (fork + one pipe per child, static round-robin partition) rather than
+    multiprocessing.Pool: the pool's helper threads in the parent and its shared queue
+    locks do not mix with the real threads the ScheduleExplorer starts in the workers."""
+    import pickle
+    import select
+
     items = list(items)
     procs = min(procs or NPROC, max(1, len(items)))
     if procs <= 1 or os.environ.get("VERIF_SERIAL"):
         return [fn(x) for x in items]
-    _PMAP_FN = fn
-    ctx = multiprocessing.get_context("fork")
-    with ctx.Pool(procs) as pool:
-        out = pool.map(_pmap_call, items, chunksize=chunksize)
-    res = []
-    for tag, val in out:
-        if tag == "err":
-            raise HarnessError("worker failed:\n" + val)
-        res.append(val)
-    return res
+    sys.stdout.flush()
+    sys.stderr.flush()
+    children = []
+    for k in range(procs):
+        r, w_ = os.pipe()
+        pid = os.fork()
+        if pid == 0:
+            os.close(r)
+            code = 0
+            try:
+                os.sched_setaffinity(0, {ALL_CPUS[k % len(ALL_CPUS)]})
+            except OSError:
+                pass
+            try:
+                out = []
+                for i in range(k, len(items), procs):
+                    try:
+                        out.append((i, "ok", fn(items[i])))
+                    except BaseException:  # noqa
+                        out.append((i, "err", traceback.format_exc()))
+                        break
+                data = pickle.dumps(out, protocol=pickle.HIGHEST_PROTOCOL)
+                with os.fdopen(w_, "wb") as f:
+                    f.write(data)
+            except BaseException:  # noqa
+                traceback.print_exc()
+                code = 3
+            finally:
+                sys.stdout.flush()
+                sys.stderr.flush()
+                os._exit(code)
+        os.close(w_)
+        children.append((pid, r))
+    bufs = {r: bytearray() for _, r in children}
+    open_fds = set(bufs)
+    while open_fds:
+        ready, _, _ = select.select(list(open_fds), [], [])
+        for fd in ready:
+            chunk = os.read(fd, 1 << 20)
+            if chunk:
+                bufs[fd] += chunk
+            else:
+                open_fds.discard(fd)
+                os.close(fd)
+    results = [None] * len(items)
+    got = [False] * len(items)
+    errors = []
+    for pid, r in children:
+        _, status = os.waitpid(pid, 0)
+        if status != 0:
+            errors.append(f"worker {pid} exited with status {status}")
+        if bufs[r]:
+            for i, tag, val in pickle.loads(bytes(bufs[r])):
+                if tag == "err":
+                    errors.append(val)
+                else:
+                    results[i] = val
+                    got[i] = True
+    if errors:
+        raise HarnessError("worker failed:\n" + "\n".join(errors[:3]))
+    if not all(got):
+        raise HarnessError("a worker returned no result for some items")
+    return results
 
 
 def chunked(seq, n):
     seq = list(seq)
     k = max(1, (len(seq) + n - 1) // n)
     return [seq[i : i + k] for i in range(0, len(seq), k)]
+
+
+def _unpin():
+    try:
+        os.sched_setaffinity(0, set(ALL_CPUS))
+    except OSError:
+        pass
 
 
 def run_py(code_or_args, input_obj=None, timeout=3600, opt=False, module=None, env=None):
@@ -118,6 +179,7 @@ def run_py(code_or_args, input_obj=None, timeout=3600, opt=False, module=None, e
         timeout=timeout,
         env=e,
         cwd=str(VERIF),
+        preexec_fn=_unpin,
     )
     if p.returncode != 0:
         raise HarnessError(
